@@ -357,6 +357,8 @@ func runDualInBubble(t *testing.T, sc *DualScenario, ch sim.Chooser) []sim.Ev {
 		add("Sent", kv...)
 	}
 	ctx, cancel := context.WithCancel(context.Background())
+	synctest.Wait()
+	base := sim.BubbleSet()
 	done := make(chan struct{})
 	var rerr error
 	value := ""
@@ -459,6 +461,26 @@ func runDualInBubble(t *testing.T, sc *DualScenario, ch sim.Chooser) []sim.Ev {
 		}
 		break
 	}
+	bgLeft := []string{}
+	if !hang {
+		// The operation has returned while the caller's context lives on. Replies still outstanding arrive now
+		// (for instance the other half's providers after the count was reached); whatever the operation left in
+		// the background has to end by itself: three minutes of virtual time later nothing of it may be blocked.
+		for steps := 0; steps < 2000; steps++ {
+			synctest.Wait()
+			p := gate.Pending()
+			if len(p) == 0 {
+				break
+			}
+			respond(p[ch.Choose(len(p))])
+		}
+		time.Sleep(3 * time.Minute)
+		synctest.Wait()
+		for _, g := range sim.NewSince(base, "verifharness") {
+			bgLeft = append(bgLeft, g.Describe())
+		}
+		sort.Strings(bgLeft)
+	}
 	cancel()
 	if hang {
 		for _, it := range gate.Pending() {
@@ -472,7 +494,7 @@ func runDualInBubble(t *testing.T, sc *DualScenario, ch sim.Chooser) []sim.Ev {
 	mu.Lock()
 	em := append([]int{}, emitted...)
 	mu.Unlock()
-	add("Return", "err", errS(rerr), "value", value, "emitted", em, "addrs", dualClassSet(fpAddrs), "atreturn", atReturn, "hang", hang)
+	add("Return", "err", errS(rerr), "value", value, "emitted", em, "addrs", dualClassSet(fpAddrs), "atreturn", atReturn, "hang", hang, "bgleft", bgLeft)
 	// what the peerstore holds for the peers learned from referrals
 	stored := []any{}
 	for id, ref := range refs {
